@@ -21,10 +21,19 @@ def check(ctx):
     ctx.rule("T3-clone", "Frame.clone/Framer.clone/Act.clone carry links and refuse resolved links")
     ctx.rule("T9-names", "clone name = '_'.join((surname, tag)); tag loops exit only on a free tag; duplicate name refused")
     ctx.rule("T1-raze", "Razer.action appends only under aux.insular and aux.razeable; prune frees the name")
+    clone_lists(ctx, "T6-lists")
+    fc = ctx.fn("framing", "Frame.clone")
+    C = FuncView(ctx, fc)
+    _rest(ctx, fc, C)
+
+
+def clone_lists(ctx, rule, only=None):
+    """every *acts list of Frame.__init__ is cloned via its add method, resolved, and dispatched (shared with C08 for the
+    before-enter conditions: a cloned frame must keep its entry guards)"""
     fi = ctx.fn("framing", "Frame.__init__")
     lists = sorted({n.targets[0].attr for n in ast.walk(fi) if isinstance(n, ast.Assign) and isinstance(n.targets[0], ast.Attribute)
                     and dotted(n.targets[0].value) == "self" and n.targets[0].attr.endswith("acts") and isinstance(n.value, ast.List)})
-    ctx.floor("T6-lists:lists", len(lists), 7)
+    ctx.floor(rule + ":lists", len(lists), 7)
     fc = ctx.fn("framing", "Frame.clone")
     C = FuncView(ctx, fc)
     fr = ctx.fn("framing", "Frame.resolve")
@@ -32,6 +41,8 @@ def check(ctx):
     ab = src(ctx.fn("framing", "Frame.addByContext"))
     F = ctx.cls("framing", "Frame")
     for L in lists:
+        if only is not None and L not in only:
+            continue
         adder = "add" + L[0].upper() + L[1:-1]   # beacts -> addBeact
         loops = _framing.loops_over(C, "self." + L)
         calls = _framing.call_in_loop(C, "self." + L, "clone." + adder)
@@ -39,17 +50,20 @@ def check(ctx):
         if ok:
             c = [c for n, c in C.calls("clone." + adder)][0]
             ok = len(c.args) == 1 and src(c.args[0]) == "act.clone()"
-        ctx.check(ok, "T6-lists", fc, "Frame.clone: for act in self.%s: clone.%s(act.clone())" % (L, adder),
+        ctx.check(ok, rule, fc, "Frame.clone: for act in self.%s: clone.%s(act.clone())" % (L, adder),
                   "the %s of a cloned frame would be missing or shared with the original" % L)
-        ctx.check(adder in F.methods and ("self." + adder) in ab, "T6-lists", fc, "%s exists and is used by addByContext" % adder,
+        ctx.check(adder in F.methods and ("self." + adder) in ab, rule, fc, "%s exists and is used by addByContext" % adder,
                   "actions of that context could not be added to a frame")
-        ctx.check(("self." + L) in rtext, "T6-lists", fr, "Frame.resolve resolves self.%s" % L,
+        ctx.check(("self." + L) in rtext, rule, fr, "Frame.resolve resolves self.%s" % L,
                   "acts in %s of a (cloned) frame would stay unresolved" % L)
         am = F.methods.get(adder)
         if am is not None:
             t = src(am)
-            ctx.check(("self." + L + ".append(act)") in t and "act.frame" in t and "act.context" in t, "T6-lists", am,
+            ctx.check(("self." + L + ".append(act)") in t and "act.frame" in t and "act.context" in t, rule, am,
                       "%s appends to self.%s and sets act.frame/act.context" % (adder, L), "the cloned act must be re-homed to the clone's frame")
+
+
+def _rest(ctx, fc, C):
     for what, pat in (("auxes", "clone.addAux"), ("over", "clone.over"), ("next_", "clone.next_"), ("unders", "clone.unders.append")):
         n = C.call_nodes(pat) or C.stores(pat)
         ctx.check(bool(n), "T3-clone", fc, "Frame.clone carries %s" % what, "a cloned frame would lose its %s link" % what)
